@@ -42,6 +42,9 @@ GEN = {
     "SET": "SET x = 1;",
     "DROP": "DROP TABLE zz;",
     "BLK": "/* a block\n comment */",
+    "PROPS": "CREATE EXTERNAL TABLE p1 (x int) ROW FORMAT SERDE 'a.b.C' WITH SERDEPROPERTIES ('s1'='w1') STORED AS TEXTFILE TBLPROPERTIES ('k1'='v1', 'k2'='v2');",
+    "ESC": "CREATE TABLE e1 (j varchar(9) COMMENT 'it\\'s');",
+    "ESCBY": "CREATE EXTERNAL TABLE e2 (x int) ROW FORMAT DELIMITED FIELDS TERMINATED BY ',' ESCAPED BY '\\' STORED AS TEXTFILE;",
     "REGEX": "CREATE EXTERNAL TABLE r1 (x string) ROW FORMAT SERDE 'org.apache.hadoop.hive.serde2.RegexSerDe' WITH SERDEPROPERTIES (\"input.regex\" = \"(a|b)\") STORED AS TEXTFILE;",
 }
 ALT = {
@@ -262,6 +265,8 @@ def vacuity(tier, cases, results, cov):
 
 def features(case):
     f = []
+    if "\\'" in script_of(case):
+        f.append("lit:backslash-quote")
     if case["kind"] == "seq":
         if case["seq"] and case["seq"][-1] == "SET":
             f.append("set:last-line")
